@@ -1,1 +1,351 @@
 // Suites that need access to items private to this module (feature ipa-verif, test builds only).
+
+// ------------------------------------------------------------------------------------------
+// C15 — sequential join (agent a4).
+//
+//   c15.join <w> <n> <op>…          seq_join over a source with a budget; ops: s<k> (source may yield k
+//                                   more items), r<i> (future i becomes ready), p (one poll_next)
+//   c15.dep <w> <n> <d> <polls>     task k is ready once tasks k+1..k+d have been polled; `polls` polls
+//   c15.try <w> <n> <errs> <op>…    seq_try_join_all; ops r<i>, p (one poll of the TryCollect future)
+//   c15.par <n> <errs> <op>…        SeqJoin::parallel_join; ops r<i>, p
+// Futures are driven by hand with a no-op waker; every future logs when it is polled.
+#[cfg(not(feature = "multi-threading"))]
+pub mod c15_local {
+    use std::{
+        future::Future,
+        num::NonZeroUsize,
+        pin::Pin,
+        sync::{Arc, Mutex},
+        task::{Context, Poll},
+    };
+
+    use futures::{Stream, stream};
+
+    use super::super::{SeqJoin, seq_join, seq_try_join_all};
+    use crate::ipa_verif::proto::*;
+
+    #[derive(Default)]
+    struct Shared {
+        ready: Vec<usize>,
+        errs: Vec<usize>,
+        polled: Vec<usize>,
+        started: Vec<usize>,
+        budget: usize,
+        next: usize,
+        pulled: usize,
+        /// `Some((n, d))`: task k is ready once tasks k+1..=k+d (below n) have been polled
+        dep: Option<(usize, usize)>,
+    }
+
+    struct Task {
+        id: usize,
+        sh: Arc<Mutex<Shared>>,
+    }
+
+    impl Future for Task {
+        type Output = Result<usize, usize>;
+        fn poll(self: Pin<&mut Self>, _cx: &mut Context<'_>) -> Poll<Self::Output> {
+            let mut sh = self.sh.lock().unwrap();
+            sh.polled.push(self.id);
+            if !sh.started.contains(&self.id) {
+                let id = self.id;
+                sh.started.push(id);
+            }
+            let ready = match sh.dep {
+                Some((n, d)) => (1..=d).all(|j| self.id + j >= n || sh.started.contains(&(self.id + j))),
+                None => sh.ready.contains(&self.id),
+            };
+            if ready {
+                Poll::Ready(if sh.errs.contains(&self.id) { Err(self.id) } else { Ok(self.id) })
+            } else {
+                Poll::Pending
+            }
+        }
+    }
+
+    fn source(n: usize, sh: Arc<Mutex<Shared>>) -> impl Stream<Item = Task> + Send {
+        stream::poll_fn(move |_cx| {
+            let mut s = sh.lock().unwrap();
+            if s.next >= n {
+                Poll::Ready(None)
+            } else if s.budget == 0 {
+                Poll::Pending
+            } else {
+                s.budget -= 1;
+                s.pulled += 1;
+                let id = s.next;
+                s.next += 1;
+                Poll::Ready(Some(Task { id, sh: sh.clone() }))
+            }
+        })
+    }
+
+    fn plus(xs: &[usize]) -> String {
+        if xs.is_empty() { "-".into() } else { xs.iter().map(|x| x.to_string()).collect::<Vec<_>>().join("+") }
+    }
+
+    fn poll_join<S: Stream<Item = Result<usize, usize>>>(
+        joined: &mut Pin<Box<S>>,
+        sh: &Arc<Mutex<Shared>>,
+        len: impl Fn(&Pin<Box<S>>) -> usize,
+    ) -> String {
+        {
+            let mut s = sh.lock().unwrap();
+            s.polled.clear();
+            s.pulled = 0;
+        }
+        let mut cx = Context::from_waker(futures::task::noop_waker_ref());
+        let r = joined.as_mut().poll_next(&mut cx);
+        let s = sh.lock().unwrap();
+        let head = match r {
+            Poll::Ready(Some(Ok(i))) | Poll::Ready(Some(Err(i))) => format!("I{i}"),
+            Poll::Ready(None) => "N".to_string(),
+            Poll::Pending => "P".to_string(),
+        };
+        format!("{head}/{}/{}@{}", plus(&s.polled), s.pulled, len(joined))
+    }
+
+    struct Ctx(NonZeroUsize);
+    impl SeqJoin for Ctx {
+        fn active_work(&self) -> NonZeroUsize {
+            self.0
+        }
+    }
+
+    pub fn exec(req: &str) -> String {
+        let t: Vec<&str> = req.split(' ').collect();
+        let sh = Arc::new(Mutex::new(Shared::default()));
+        let mut out: Vec<String> = vec![];
+        match t[0] {
+            "c15.join" => {
+                let w: usize = t[1].parse().unwrap();
+                let n: usize = t[2].parse().unwrap();
+                let mut joined = Box::pin(seq_join(NonZeroUsize::new(w).unwrap(), source(n, sh.clone())));
+                out.push(format!("cap={}", joined.as_ref().get_ref().ipa_verif_state().1));
+                for op in &t[3..] {
+                    let (c, arg) = op.split_at(1);
+                    match c {
+                        "s" => {
+                            sh.lock().unwrap().budget += arg.parse::<usize>().unwrap();
+                            out.push("s".into());
+                        }
+                        "r" => {
+                            sh.lock().unwrap().ready.push(arg.parse().unwrap());
+                            out.push("r".into());
+                        }
+                        "p" => out.push(poll_join(&mut joined, &sh, |j| j.as_ref().get_ref().ipa_verif_state().0)),
+                        _ => panic!("harness: unknown op {op}"),
+                    }
+                }
+            }
+            "c15.dep" => {
+                let w: usize = t[1].parse().unwrap();
+                let n: usize = t[2].parse().unwrap();
+                let d: usize = t[3].parse().unwrap();
+                let polls: usize = t[4].parse().unwrap();
+                {
+                    let mut s = sh.lock().unwrap();
+                    s.dep = Some((n, d));
+                    s.budget = usize::MAX;
+                }
+                let mut joined = Box::pin(seq_join(NonZeroUsize::new(w).unwrap(), source(n, sh.clone())));
+                for _ in 0..polls {
+                    sh.lock().unwrap().budget = usize::MAX;
+                    out.push(poll_join(&mut joined, &sh, |j| j.as_ref().get_ref().ipa_verif_state().0));
+                }
+            }
+            "c15.try" | "c15.par" => {
+                let is_try = t[0] == "c15.try";
+                let (n, errs, ops): (usize, Vec<usize>, &[&str]) = if is_try {
+                    (t[2].parse().unwrap(), parse_nat_list(t[3]), &t[4..])
+                } else {
+                    (t[1].parse().unwrap(), parse_nat_list(t[2]), &t[3..])
+                };
+                sh.lock().unwrap().errs = errs;
+                let tasks: Vec<Task> = (0..n).map(|id| Task { id, sh: sh.clone() }).collect();
+                let mut fut: Option<Pin<Box<dyn Future<Output = Result<Vec<usize>, usize>>>>> = Some(if is_try {
+                    let w: usize = t[1].parse().unwrap();
+                    Box::pin(seq_try_join_all(NonZeroUsize::new(w).unwrap(), tasks))
+                } else {
+                    Box::pin(Ctx(NonZeroUsize::new(1).unwrap()).parallel_join(tasks))
+                });
+                for op in ops {
+                    let (c, arg) = op.split_at(1);
+                    match c {
+                        "r" => {
+                            sh.lock().unwrap().ready.push(arg.parse().unwrap());
+                            out.push("r".into());
+                        }
+                        "p" => match fut.as_mut() {
+                            None => out.push("gone".into()),
+                            Some(f) => {
+                                sh.lock().unwrap().polled.clear();
+                                let mut cx = Context::from_waker(futures::task::noop_waker_ref());
+                                let r = f.as_mut().poll(&mut cx);
+                                let polled = plus(&sh.lock().unwrap().polled);
+                                match r {
+                                    Poll::Pending => out.push(format!("P/{polled}")),
+                                    Poll::Ready(Ok(v)) => {
+                                        out.push(format!("OK:{}/{polled}", plus(&v)));
+                                        fut = None;
+                                    }
+                                    Poll::Ready(Err(e)) => {
+                                        out.push(format!("ERR:{e}/{polled}"));
+                                        fut = None;
+                                    }
+                                }
+                            }
+                        },
+                        _ => panic!("harness: unknown op {op}"),
+                    }
+                }
+            }
+            _ => panic!("harness: unknown request {req}"),
+        }
+        out.join(" ")
+    }
+
+    fn permutations(n: usize) -> Vec<Vec<usize>> {
+        fn go(k: usize, cur: &mut Vec<usize>, out: &mut Vec<Vec<usize>>) {
+            if k == cur.len() {
+                out.push(cur.clone());
+                return;
+            }
+            for i in k..cur.len() {
+                cur.swap(k, i);
+                go(k + 1, cur, out);
+                cur.swap(k, i);
+            }
+        }
+        let mut out = vec![];
+        go(0, &mut (0..n).collect(), &mut out);
+        out
+    }
+
+    pub fn generate(rng: &mut Rng, thorough: bool) -> Vec<String> {
+        let mut out: Vec<String> = vec![];
+        // ---- boundaries
+        for s in [
+            "c15.join 1 0 p p", "c15.join 3 0 s5 p", "c15.join 1 1 p s1 p r0 p p", "c15.join 1 1 r0 s1 p p p",
+            "c15.join 3 2 s9 p r1 p r0 p p p", "c15.join 2 5 s9 p r0 r1 r2 r3 r4 p p p p p p",
+            "c15.join 8 3 s1 p s1 p s1 p r2 p r0 p p r1 p p", "c15.join 2 4 s1 r0 p p s1 p r1 p s9 p r3 p r2 p p p",
+            "c15.try 1 0 - p p", "c15.try 3 1 - p r0 p p", "c15.try 3 2 0 r0 p", "c15.try 3 2 1 r1 p r0 p", "c15.try 2 4 2 r0 r1 r3 p r2 p",
+            "c15.par 0 - p", "c15.par 2 - p r1 p r0 p p", "c15.par 3 1 r0 p r1 p", "c15.par 3 0,2 r2 p", "c15.par 3 0,2 r2 r0 p",
+            "c15.dep 1 4 0 10", "c15.dep 3 6 2 14", "c15.dep 3 6 3 14", "c15.dep 1 3 1 8",
+        ] {
+            out.push(s.to_string());
+        }
+        let nmax = if thorough { 7 } else { 6 };
+        // ---- all completion orders, windows 1..8, source always ready / trickling
+        for n in 1..=nmax {
+            let perms = permutations(n);
+            for w in 1..=8usize {
+                if n >= 6 && !(w <= 3 || w == n || w == 8) && !thorough {
+                    continue;
+                }
+                for (pi, order) in perms.iter().enumerate() {
+                    // source mode: 0 = always ready, 1 = one item per poll, 2 = random trickle
+                    let modes: &[usize] = if n <= 4 { &[0, 1, 2] } else if pi % 2 == 0 { &[0] } else { &[1 + pi % 2] };
+                    for &mode in modes {
+                        let mut ops: Vec<String> = vec![];
+                        if mode == 0 {
+                            ops.push(format!("s{}", n + 1));
+                        }
+                        ops.push("p".into());
+                        for r in order {
+                            match mode {
+                                1 => ops.push("s1".into()),
+                                2 => {
+                                    if rng.below(2) == 0 {
+                                        ops.push(format!("s{}", 1 + rng.below(3)));
+                                    }
+                                }
+                                _ => {}
+                            }
+                            ops.push(format!("r{r}"));
+                            ops.push("p".into());
+                            // after a completion several items may be ready: poll until pending
+                            for _ in 0..rng.below(3) {
+                                ops.push("p".into());
+                            }
+                        }
+                        ops.push(format!("s{}", n + 1));
+                        for _ in 0..n + 2 {
+                            ops.push("p".into());
+                        }
+                        out.push(format!("c15.join {w} {n} {}", ops.join(" ")));
+                    }
+                    // fallible variant: error set chosen by the permutation index
+                    if n <= 5 || pi % 3 == 0 {
+                        let mask = if pi % 4 == 0 { 0 } else { rng.usize_below(1 << n) };
+                        let errs: Vec<usize> = (0..n).filter(|i| mask >> i & 1 == 1).collect();
+                        let mut ops: Vec<String> = vec!["p".into()];
+                        for r in order {
+                            ops.push(format!("r{r}"));
+                            ops.push("p".into());
+                        }
+                        ops.push("p".into());
+                        out.push(format!("c15.try {w} {n} {} {}", nat_list(&errs), ops.join(" ")));
+                        if w == 1 {
+                            out.push(format!("c15.par {n} {} {}", nat_list(&errs), ops.join(" ")));
+                        }
+                    }
+                }
+            }
+        }
+        // ---- every single error position
+        for n in 1..=6usize {
+            for e in 0..n {
+                for w in [1usize, 2, 3, 8] {
+                    let mut order: Vec<usize> = (0..n).collect();
+                    rng.shuffle(&mut order);
+                    let mut ops: Vec<String> = vec!["p".into()];
+                    for r in &order {
+                        ops.push(format!("r{r}"));
+                        ops.push("p".into());
+                    }
+                    out.push(format!("c15.try {w} {n} {e} {}", ops.join(" ")));
+                    out.push(format!("c15.par {n} {e} {}", ops.join(" ")));
+                }
+            }
+        }
+        // ---- dependencies reaching d tasks ahead: completes iff d < window
+        for w in 1..=8usize {
+            for d in 0..=8usize {
+                for n in [1usize, 2, 5, 9, 17] {
+                    out.push(format!("c15.dep {w} {n} {d} {}", 2 * n + 2));
+                }
+            }
+        }
+        // ---- random longer schedules
+        for _ in 0..(if thorough { 3000 } else { 300 }) {
+            let n = 1 + rng.usize_below(20);
+            let w = 1 + rng.usize_below(8);
+            let mut order: Vec<usize> = (0..n).collect();
+            rng.shuffle(&mut order);
+            let mut ops: Vec<String> = vec![];
+            for r in &order {
+                match rng.below(4) {
+                    0 => ops.push(format!("s{}", rng.below(4))),
+                    1 => ops.push("p".into()),
+                    _ => {}
+                }
+                ops.push(format!("r{r}"));
+                for _ in 0..rng.below(3) {
+                    ops.push("p".into());
+                }
+            }
+            ops.push(format!("s{}", n + 1));
+            for _ in 0..n + 2 {
+                ops.push("p".into());
+            }
+            out.push(format!("c15.join {w} {n} {}", ops.join(" ")));
+        }
+        out
+    }
+
+    #[test]
+    fn verif_c15_local() {
+        run_suite("c15_local", generate, exec);
+    }
+}
